@@ -334,7 +334,13 @@ def _jsonable(v):
         return [_jsonable(x) for x in v]
     if isinstance(v, bytes):
         return v.decode("utf-8", "replace")
-    return v
+    if v is None or isinstance(v, (bool, str)):
+        return v
+    if isinstance(v, int):
+        return v if v.bit_length() < 4000 else "<int of %d bits>" % v.bit_length()
+    if isinstance(v, float):
+        return v if v == v and abs(v) != float("inf") else repr(v)
+    return repr(v)   # Ellipsis, complex, ... : anything JSON has no spelling for
 
 
 def finish(res, level="exploration", min_distinct=2):
